@@ -46,6 +46,7 @@ pub fn run(ctx: &Ctx) -> i32 {
         let fb = Fst::new(&b[..]).unwrap();
         let lo = format!("{:010}", n * 3 / 20);
         let hi = format!("{:010}", n * 3 - n * 3 / 20);
+        let long_lo = format!("{}{}", lo, "/".repeat(60));
         let mut ops: Vec<(String, Box<dyn FnOnce() -> u64 + '_>)> = vec![];
         ops.push(("stream".into(), Box::new(|| {
             let mut s = fa.stream();
@@ -57,6 +58,23 @@ pub fn run(ctx: &Ctx) -> i32 {
         })));
         ops.push(("range(ge,lt) 90%".into(), Box::new(|| {
             let mut s = fa.range().ge(&lo).lt(&hi).into_stream();
+            let mut c = 0;
+            while let Some(_) = s.next() {
+                c += 1;
+            }
+            c
+        })));
+        // a lower bound much longer than any key (and longer than the key buffer's initial capacity)
+        ops.push(("range(ge 70-byte bound)".into(), Box::new(|| {
+            let mut s = fa.range().ge(&long_lo).into_stream();
+            let mut c = 0;
+            while let Some(_) = s.next() {
+                c += 1;
+            }
+            c
+        })));
+        ops.push(("search(dfa).gt(70-byte bound).le".into(), Box::new(|| {
+            let mut s = fa.search(&dfa).gt(&long_lo).le(&hi).into_stream();
             let mut c = 0;
             while let Some(_) = s.next() {
                 c += 1;
@@ -188,6 +206,38 @@ pub fn run(ctx: &Ctx) -> i32 {
         if r.allocs != 0 {
             ev.violate("lookup-allocates", format!("opening over borrowed bytes + 100000 point lookups performed {} allocations (peak {} bytes) at N={}", r.allocs, r.peak, n), J::U(n));
         }
+        // the same on keys over all 256 byte values (uncommon input bytes, explicit-input nodes)
+        {
+            let mut r = Rng::new(ctx.seed ^ n, 0xb17e);
+            let mut keys: Vec<Vec<u8>> = (0..(n as usize).min(200_000)).map(|_| (0..6).map(|_| r.next() as u8).collect()).collect();
+            keys.sort();
+            keys.dedup();
+            let mut b = Builder::memory();
+            for (i, k) in keys.iter().enumerate() {
+                b.insert(k, i as u64).unwrap();
+            }
+            let bytes = b.into_inner().unwrap();
+            let probes2: Vec<Vec<u8>> = (0..50_000).map(|i| if i % 2 == 0 { keys[r.usize(keys.len())].clone() } else { (0..6).map(|_| r.next() as u8).collect() }).collect();
+            let (r2, hits3) = measured(|| {
+                let f = Fst::new(&bytes[..]).unwrap();
+                let mut h = 0;
+                for p in &probes2 {
+                    if f.get(p).is_some() {
+                        h += 1;
+                    }
+                    if f.contains_key(&p[..3]) {
+                        h += 1;
+                    }
+                }
+                h
+            });
+            ev.eval(Some(crate::rng::fnv_u64(0xb17e, n)));
+            ev.count("zero-alloc-sections");
+            table.push(J::obj(vec![("op", J::s("Fst::new(&[u8]) + 50000 get/contains_key on random 6-byte binary keys")), ("n_keys", J::U(keys.len() as u64)), ("items", J::U(hits3)), ("peak_live_bytes", J::U(r2.peak)), ("allocations", J::U(r2.allocs))]));
+            if r2.allocs != 0 {
+                ev.violate("lookup-allocates", format!("50000 point lookups on binary keys performed {} allocations (peak {} bytes) on an FST of {} keys", r2.allocs, r2.peak, keys.len()), J::U(n));
+            }
+        }
         let mm = unsafe { memmap2::Mmap::map(&fh).unwrap() };
         let (r, hits2) = measured(|| {
             let f = Fst::new(mm).unwrap();
@@ -241,9 +291,9 @@ pub fn run(ctx: &Ctx) -> i32 {
         ev,
         Spec {
             level: "exploration",
-            rule: "one evaluation = one complete traversal (or lookup section) of an FST with N 10-byte keys under the counting global allocator (single-threaded): full stream, range over 90%, search(Subsequence), search(dfa) with lower bound, search_with_state, Map stream/keys/values, and union/intersection/difference/symmetric_difference over k in {2,3,5,8} streams (FSTs and range streams); peak live heap must stay under the generous constant 256 KiB + k*64 KiB, must not exceed the N=10^4 value by more than 25% + 256 B at N=10^5, 10^6 (thorough 10^7), and the NUMBER of allocations must not grow with N (<= +4); Fst::new over &[u8], Map::new, Fst::new over a memory map and 10^5 get/contains_key probes (hits and misses) must perform exactly 0 allocations; non-trivial = every measurement; distinct = (operation, N)",
+            rule: "one evaluation = one complete traversal (or lookup section) of an FST with N 10-byte keys under the counting global allocator (single-threaded): full stream, range over 90%, range/search with a 70-byte lower bound, search(Subsequence), search(dfa) with lower bound, search_with_state, Map stream/keys/values, and union/intersection/difference/symmetric_difference over k in {2,3,5,8} streams (FSTs and range streams); peak live heap must stay under the generous constant 256 KiB + k*64 KiB, must not exceed the N=10^4 value by more than 25% + 256 B at N=10^5, 10^6 (thorough 10^7), and the NUMBER of allocations must not grow with N (<= +4); Fst::new over &[u8], Map::new, Fst::new over a memory map and 10^5 get/contains_key probes (hits and misses; decimal keys and random binary keys over all 256 byte values) must perform exactly 0 allocations; non-trivial = every measurement; distinct = (operation, N)",
             assumptions: vec!["the restated, decidable claim is bounded scales, not 'for all N'".into(), "constants are fixed a priori from the code's initial capacities with generous slack, not fitted".into()],
-            floors: vec![("measurements", 60), ("scale-pairs-compared", 40), ("zero-alloc-sections", 6)],
+            floors: vec![("measurements", 60), ("scale-pairs-compared", 40), ("zero-alloc-sections", 9)],
             exhaustive: Some(false),
         },
     )
